@@ -16,6 +16,7 @@ def main(tier, only=None):
         e1.run_set(chk, "c11/utf8.c", hs)
     hs = []
     ND = ("__NO_CTYPE",)
+    EA = "error_at:stub_error_at"   # diagnostic path: end the path instead of formatting the message
     uni = [os.path.join(vf.REPO, "unicode.c")]
     if "int" in fams:
         chk.bounds += ["int: convert_pp_int for every 64-bit value x {decimal, 0x, 0X, octal, 0b, 0B} x all 23 "
@@ -24,22 +25,23 @@ def main(tier, only=None):
         chk.assumptions += ["strtoul -> contract stub (returns the symbolic value, end pointer just past the digit "
                             "sequence; base and start position are asserted); the digit text under cbmc is a "
                             "placeholder, native replay writes the real digits and runs the real strtoul",
+                            "error_at -> ends the path (its message formatting, verror_at/display_width, is not the subject)",
                             "lits.c is compiled with -D__NO_CTYPE so that cbmc's exact ctype models are used (glibc's "
                             "macros go through __ctype_b_loc(), which has no body in cbmc)"]
         hs += [e1.H("h_int_ladder", "int/type-ladder", unwind=8, unwindset=("build_number.0:4", "build_number.3:4"),
-                    defines=ND, replace_calls=("strtoul:stub_strtoul",), timeout=600),
+                    defines=ND, replace_calls=("strtoul:stub_strtoul", EA), timeout=600),
                e1.H("h_int_badsuffix", "int/bad-suffix-rejected", unwind=8, defines=ND,
-                    replace_calls=("strtoul:stub_strtoul",), timeout=600)]
+                    replace_calls=("strtoul:stub_strtoul", EA), timeout=600)]
     if "escape" in fams:
         chk.bounds += ["escape: read_escaped_char on every 5-byte sequence after the backslash (simple escapes, octal "
                        "1..3 digits, hex 1..4 digits)"]
-        hs += [e1.H("h_escape", "escape/value-and-length", unwind=8, defines=ND, timeout=600)]
+        hs += [e1.H("h_escape", "escape/value-and-length", unwind=8, defines=ND, replace_calls=(EA,), timeout=600)]
     if "wide" in fams:
         chk.bounds += ['wide: u"c", U"c", L\'c\' for every scalar value c except NUL, newline, backslash and the '
                        "closing quote (which need an escape)"]
-        hs += [e1.H("h_utf16", "wide/utf16-surrogates", unwind=8, defines=ND, timeout=600),
-               e1.H("h_utf32", "wide/utf32", unwind=8, defines=ND, timeout=600),
-               e1.H("h_wchar", "wide/wchar-constant", unwind=8, defines=ND, timeout=600)]
+        hs += [e1.H("h_utf16", "wide/utf16-surrogates", unwind=8, defines=ND, replace_calls=(EA,), timeout=600),
+               e1.H("h_utf32", "wide/utf32", unwind=8, defines=ND, replace_calls=(EA,), timeout=600),
+               e1.H("h_wchar", "wide/wchar-constant", unwind=8, defines=ND, replace_calls=(EA,), timeout=600)]
     if hs:
         e1.run_set(chk, "c11/lits.c", hs, extra_src=uni, workers=int(os.environ.get("VERIF_WORKERS", "8")))
     chk.outside += ["floating constants (strtold text -> value), digit text -> value (strtoul)",
